@@ -209,3 +209,66 @@ def conditioning_premise(deltas, flags, r, P):
             continue
         terms.append(And(*[(Not(flags.get((r, p), SB(False))) if S[p] else flags.get((r, p), SB(False))) for p in range(P)]))
     return Or(*terms) if terms else SB(False)
+
+
+# --------------------------------------------------------------------------
+# scripted optimizer plug-in ("symstub"): issues a bounded script of callback requests
+# --------------------------------------------------------------------------
+class _OptProvider:
+    def __init__(self):
+        self.script = None      # fn(optimizer, initial_values) -> None : performs the requests
+        self.allow_nan = False
+        self.parallel = False
+        self.created = []
+
+
+_OPT = _OptProvider()
+_OPM = None
+
+
+def stub_optimizer_manager():
+    """A PluginManager with sampler `stub` and optimizer `symstub` registered."""
+    global _OPM
+    if _OPM is None:
+        from ropt.plugins.optimizer.base import Optimizer, OptimizerPlugin
+
+        pm = stub_manager()
+
+        class ScriptedOptimizer(Optimizer):
+            def __init__(self, config, optimizer_callback):
+                self.config, self.callback = config, optimizer_callback
+                self.log = []
+
+            def start(self, initial_values):
+                _OPT.script(self, initial_values)
+
+            @property
+            def allow_nan(self):
+                return _OPT.allow_nan
+
+            @property
+            def is_parallel(self):
+                return _OPT.parallel
+
+        class ScriptedPlugin(OptimizerPlugin):
+            def create(self, config, optimizer_callback):
+                o = ScriptedOptimizer(config, optimizer_callback)
+                _OPT.created.append(o)
+                return o
+
+            def is_supported(self, method):
+                return True
+
+        pm.add_plugin("optimizer", "symstub", ScriptedPlugin())
+        _OPM = pm
+    stub_manager()  # resets the sampler provider bookkeeping
+    _OPT.created = []
+    return _OPM
+
+
+def set_script(fn, allow_nan=False, parallel=False):
+    _OPT.script, _OPT.allow_nan, _OPT.parallel = fn, allow_nan, parallel
+
+
+def created_optimizers():
+    return _OPT.created
